@@ -2209,7 +2209,7 @@ class Context:
                 x509.load_der_x509_certificate(certificate.certificates[i][0])
                 for i in range(1, len(certificate.certificates))
             ]
-        except ValueError:
+        except (ValueError, x509.InvalidVersion):
             raise AlertBadCertificate("Could not parse certificate")
 
     def _set_state(self, state: State) -> None:
